@@ -8,7 +8,7 @@ CONSTANTS MaxName, MaxText, MaxSegs, EmitCases
 Alphabet == {"a", "n", "0", "_", "'", "-", ".", "\"", "\\", "$", "{", "}", " ", "\n", "\t", "U"}
 RECURSIVE Strings(_)
 Strings(n) == IF n = 0 THEN {<<>>} ELSE LET S == Strings(n - 1) IN S \cup {Append(s, c) : s \in {t \in S : Len(t) = n - 1}, c \in Alphabet}
-Names == Strings(MaxName) \ {<<>>}
+Names == (Strings(MaxName) \ {<<>>}) \cup Keywords
 Texts == Strings(MaxText)
 
 VARIABLES kind, names, text      \* what this behaviour explores
